@@ -53,8 +53,23 @@ pub fn input(id: u64, tiny: bool) -> Input {
     let amp = 1i64 << (bps - 2);
     let mut samples = Vec::with_capacity(frames * channels as usize);
     let mut prev = vec![0i64; channels as usize];
+    // some channels are a non-zero constant (all-zero residuals: every partition order ties) or a
+    // constant offset plus a tiny dither, the cases where a choice among equal candidates matters
+    let flat: Vec<u64> = (0..channels).map(|_| r.below(4)).collect();
+    let dc: Vec<i64> = (0..channels).map(|_| (r.below(amp as u64) as i64) - amp / 2).collect();
     for _ in 0..frames {
         for c in 0..channels as usize {
+            if flat[c] == 0 {
+                prev[c] = dc[c];
+                samples.push(dc[c] as i32);
+                continue;
+            }
+            if flat[c] == 1 {
+                let v = (dc[c] + (r.below(2) as i64)).clamp(-amp, amp - 1);
+                prev[c] = v;
+                samples.push(v as i32);
+                continue;
+            }
             let step = (r.below(amp as u64 / 8 + 2) as i64) - (amp / 16);
             let v = if c == 1 && r.below(3) > 0 { prev[0] + (r.below(5) as i64 - 2) } else { (prev[c] + step).clamp(-amp, amp - 1) };
             let v = v.clamp(-amp, amp - 1);
